@@ -52,7 +52,9 @@ func vxFreqMap(keys []string) map[string]int {
 
 // H2
 func VerifC19_MapSim() {
-	keys := []string{"k0", "k1"}
+	// three keys are the least universe in which one map can have a key the other lacks while both
+	// still share one (needed for an asymmetric union to change the quotient)
+	keys := []string{"k0", "k1", "k2"}[:vxParam("keys", 2)]
 	a := vxFreqMap(keys)
 	b := vxFreqMap(keys)
 	s1 := MapSimilarity(a, b)
